@@ -98,6 +98,13 @@ func checkC03(c *Ctx, r *Report) {
 	// ---- C03.event
 	c.checkEventTypestate(r, ro)
 
+	// a recycled event (every field stale, handed back through PutEvent) through every entry point in every environment
+	// class: nothing stale may be published
+	entryOK := c.checkEntrySemantics(r, ro, "C03.entry-values")
+	allEntries := len(ro.EntryPoints) > 0
+	for _, E := range ro.EntryPoints {
+		allEntries = allEntries && entryOK[E.Name()]
+	}
 	// ---- C03.reset: a pooled event must not carry data of the previous event: every field is either cleared by
 	// Reset or written by the recorder on every path before publication
 	if ev := c.logType("Event"); ev != nil && ro.Recorder != nil {
@@ -130,7 +137,17 @@ func checkC03(c *Ctx, r *Report) {
 				stale = append(stale, fld)
 			}
 		}
-		if len(stale) > 0 {
+		// the evaluation hands every entry point a recycled event whose Level, Time, File, Line, Tag, Fields, CtxString and
+		// CtxFields are stale and finds none of it published: for those fields it decides; a field it does not know
+		// (a new one) stays with the rule
+		evaluated := map[string]bool{"Level": true, "Time": true, "File": true, "Line": true, "Tag": true, "Fields": true, "CtxString": true, "CtxFields": true}
+		onlyEvaluated := len(stale) > 0
+		for _, f := range stale {
+			onlyEvaluated = onlyEvaluated && evaluated[f]
+		}
+		if onlyEvaluated && allEntries {
+			r.OK("C03.reset:Event", "field(s) %v are neither cleared by Reset nor provably rewritten on every path, but all %d entry points evaluated with a recycled event whose fields are all stale publish nothing stale (decided by partial evaluation)", stale, len(ro.EntryPoints))
+		} else if len(stale) > 0 {
 			r.Fail("C03.reset:Event", c.pos(ev.Obj().Pos()), "field(s) %v of a recycled event are neither cleared by Reset nor rewritten on every path of the recorder: a line can carry data that belongs to another event", stale)
 		} else {
 			r.OK("C03.reset:Event", "all %d Event fields are cleared by Reset or rewritten on every path before publication", st.NumFields())
@@ -252,6 +269,54 @@ func (c *Ctx) checkEventTypestate(r *Report, ro *Roles) {
 		})
 	}
 	r.Floor("event-handling roots", len(roots), 8)
+	// do the bytes a layout returns alias storage that goes back to a pool with the event (no copy on the way out)?
+	layoutsAlias := false
+	if layI := c.logIface("Layout"); layI != nil {
+		var aliases func(v ssa.Value, depth int) bool
+		aliases = func(v ssa.Value, depth int) bool {
+			if depth > 3 {
+				return false
+			}
+			switch x := v.(type) {
+			case *ssa.Call:
+				if calleeIs(x, "bytes", "", "Clone") || calleeIs(x, "slices", "", "Clone") {
+					return false
+				}
+				if sc := x.Common().StaticCallee(); sc != nil {
+					if sc.Name() == "Bytes" && sc.Signature.Recv() != nil && strings.Contains(sc.Signature.Recv().Type().String(), "bytes.Buffer") {
+						return true
+					}
+					if c.inModule(sc) && len(sc.Blocks) > 0 {
+						res := false
+						eachInstr(sc, func(in ssa.Instruction) {
+							if ret, ok := in.(*ssa.Return); ok && len(ret.Results) > 0 && aliases(ret.Results[0], depth+1) {
+								res = true
+							}
+						})
+						return res
+					}
+				}
+			case *ssa.Phi:
+				for _, e := range x.Edges {
+					if aliases(e, depth+1) {
+						return true
+					}
+				}
+			case *ssa.Slice:
+				return aliases(x.X, depth+1)
+			}
+			return false
+		}
+		for _, nt := range c.implementers(layI) {
+			if m := c.method(nt, "ToBytes"); m != nil && len(m.Blocks) > 0 {
+				eachInstr(m, func(in ssa.Instruction) {
+					if ret, ok := in.(*ssa.Return); ok && len(ret.Results) > 0 && aliases(ret.Results[0], 0) {
+						layoutsAlias = true
+					}
+				})
+			}
+		}
+	}
 	for _, rt := range roots {
 		r.SawFunc(rt.fn)
 		key := "C03.event:" + fname(rt.fn)
@@ -267,6 +332,8 @@ func (c *Ctx) checkEventTypestate(r *Report, ro *Roles) {
 			return false
 		}
 		var viol []string
+		// bytes formatted from the event by a layout that hands out its buffer's own storage: borrowed from the event
+		borrowed := map[ssa.Value]bool{}
 		ts := &TS{C: c, Ev: &Evaluator{}}
 		ts.Inline = func(s *TSCtx, call ssa.CallInstruction, callee *ssa.Function) bool {
 			if callee == putEvent || call.Common().StaticCallee() == nil {
@@ -316,6 +383,26 @@ func (c *Ctx) checkEventTypestate(r *Report, ro *Roles) {
 				com := x.Common()
 				if com.StaticCallee() == putEvent && isT(com.Args[0], s.Frame) {
 					return step(s, "REL", in)
+				}
+				if layoutsAlias && x.Value() != nil {
+					name := ""
+					if com.IsInvoke() {
+						name = com.Method.Name()
+					} else if sc := com.StaticCallee(); sc != nil {
+						name = sc.Name()
+					}
+					if name == "ToBytes" {
+						for _, a := range com.Args {
+							if isT(a, s.Frame) {
+								borrowed[x.Value()] = true
+							}
+						}
+					}
+				}
+				for _, a := range com.Args {
+					if borrowed[a] && s.A == "released" {
+						viol = append(viol, "bytes a layout formatted from the event are used after the event went back to the pool ("+c.instrPos(in)+"): the layouts hand out their buffer's own storage, which is recycled with the event")
+					}
 				}
 				for _, a := range com.Args {
 					if isT(a, s.Frame) {
